@@ -34,6 +34,25 @@ def parseOp : List String → Option (Op × List String)
     let n ← a.toNat?; let g ← b.toNat?
     let bs ← bytesOfHex c
     pure (.addContent (n, g) bs, ts)
+  | "rmannot" :: a :: b :: ts => do
+    let n ← a.toNat?; let g ← b.toNat?
+    pure (.removeAnnot (n, g), ts)
+  | "addxobj" :: a :: b :: nm :: c :: e :: ts => do
+    let n ← a.toNat?; let g ← b.toNat?; let name ← bytesOfHex nm
+    let xn ← c.toNat?; let xg ← e.toNat?
+    pure (.addXObject (n, g) name (xn, xg), ts)
+  | "addgs" :: a :: b :: nm :: c :: e :: ts => do
+    let n ← a.toNat?; let g ← b.toNat?; let name ← bytesOfHex nm
+    let xn ← c.toNat?; let xg ← e.toNat?
+    pure (.addGState (n, g) name (xn, xg), ts)
+  | "chgstream" :: a :: b :: c :: e :: ts => do
+    let n ← a.toNat?; let g ← b.toNat?
+    let content ← bytesOfHex c; let defl ← bytesOfHex e
+    pure (.changeStream (n, g) content defl, ts)
+  | "chgpage" :: a :: b :: c :: e :: ts => do
+    let n ← a.toNat?; let g ← b.toNat?
+    let content ← bytesOfHex c; let defl ← bytesOfHex e
+    pure (.changePage (n, g) content defl, ts)
   | _ => none
 
 /-- `step <op> <args…> <doc>` -> `ok <out> | <doc>` / `panic <site>` / `err <e>` -/
